@@ -39,7 +39,7 @@ func Check(obs *Obs, lin *LinStats) []Finding {
 		add("HARNESS", "unsupported", "%s", n)
 	}
 	if !c.staticDone {
-		c.staticFs = c.staticMethodSet()
+		c.staticFs = append(c.staticMethodSet(), c.staticRecordTypes()...)
 		c.staticDone = true
 	}
 	fs = append(fs, c.staticFs...)
